@@ -224,7 +224,7 @@ fn main() {
                 }
                 ops.push(t);
             }
-            clear_cfgs.push(demux::Cfg { ops, special: None, mid_on: true, rid_on: true });
+            clear_cfgs.push(demux::Cfg { ops, special: None, mid_on: true, rid_on: true, layout: 0 });
         }
     }
     if std::env::var("C19_SKIP_CLEAR").is_ok() {
@@ -420,13 +420,14 @@ fn main() {
             special: None,
             mid_on: true,
             rid_on: true,
+            layout: 0,
         };
         let h = vec![demux::Pkt { s: 0, p: 0, mid: 1, rid: 0 }, demux::Pkt { s: 0, p: 1, mid: 0, rid: 0 }, demux::Pkt { s: 2, p: 2, mid: 3, rid: 0 }];
         let r = demux::run(&cfg, &h, &conn);
         rep.sample(json!({"part": "demux", "cfg": cfg.json(), "history": h.iter().map(|p| p.json()).collect::<Vec<_>>(),
             "delivered_masks": r.obs[..r.n].iter().map(|o| format!("{:03b}", o.delivered)).collect::<Vec<_>>(),
             "reference": r.dec[..r.n].iter().map(|d| json!({"admissible_listeners_mask": format!("{:03b}", d.allowed), "by": demux::Via::names(d.vias)})).collect::<Vec<_>>()}));
-        let cfg2 = demux::Cfg { ops: vec![demux::Op { l: 0, k: demux::Kind::Ssrc(0) }, demux::Op { l: 1, k: demux::Kind::Pt(1) }], special: Some((0, demux::Stat::ClosedAfter)), mid_on: true, rid_on: true };
+        let cfg2 = demux::Cfg { ops: vec![demux::Op { l: 0, k: demux::Kind::Ssrc(0) }, demux::Op { l: 1, k: demux::Kind::Pt(1) }], special: Some((0, demux::Stat::ClosedAfter)), mid_on: true, rid_on: true, layout: 0 };
         let h2 = vec![demux::Pkt { s: 0, p: 1, mid: 0, rid: 0 }, demux::Pkt { s: 0, p: 1, mid: 0, rid: 0 }];
         let r2 = demux::run(&cfg2, &h2, &conn);
         rep.sample(json!({"part": "demux", "cfg": cfg2.json(), "history": h2.iter().map(|p| p.json()).collect::<Vec<_>>(),
